@@ -299,6 +299,12 @@ def check_insert_local_changes(u):
     m = re.search(r"\bmatch\s+version_info\s*\{", body)
     if not m:
         raise LostAnchor("match version_info not found")
+    # "no version" may only be concluded from what THIS transaction wrote to crsql_changes (the version_info query): an earlier shortcut
+    # (e.g. on sqlite3_changes(), which only reflects the last statement) would commit changes without booking them
+    obligations.append("no-version-is-concluded-only-from-the-transactions-own-change-rows")
+    for em in re.finditer(r"\bOk\s*\(\s*None\s*\)", body[:m.start()]):
+        failures.append(("no-version-is-concluded-only-from-the-transactions-own-change-rows", _line(src, o + em.start()),
+                         "insert_local_changes returns Ok(None) before it has looked at the transaction's rows in crsql_changes"))
     mo = o + m.end() - 1
     mc = match_delim(msk, mo)
     arms = _match_arms(msk, mo, mc)
@@ -1427,7 +1433,34 @@ def check_updates_row_binding(u):
     return obligations, failures, ["%s:%d SELECT %s -> %s" % (file, _line(src, lits[0][0]), cols, names)]
 
 
-CHECKS = {"updates_row_binding": check_updates_row_binding, "row_bindings": check_row_bindings, "feeds_fed": check_feeds_fed, "exists_binding": check_exists_binding, "seqmerge_params": check_seqmerge_params, "chunker_ranges": check_chunker_ranges, "persist_before_publish": check_persist_before_publish, "schema_reload": check_schema_reload, "cluster_id_fresh": check_cluster_id_fresh, "schema_ddl": check_schema_ddl, "schema_atomic": check_schema_atomic, "seq_range_guard": check_seq_range_guard, "exits_covered": check_exits_covered, "sub_lag_stops": check_sub_lag_stops, "single_snapshot": check_single_snapshot, "offer_loops": check_offer_loops, "speedy_prealloc": check_speedy_prealloc, "from_conn": check_from_conn, "sql_actor_scoping": check_sql_actor_scoping, "local_write_sequence": check_local_write_sequence, "insert_local_changes": check_insert_local_changes, "authz_layer": check_authz_layer, "readonly_guard": check_readonly_guard, "read_pool": check_read_pool}
+def check_broadcast_delivery(u):
+    """C07: every chunk of a committed local transaction is announced: broadcast_changes hands each changeset to the broadcast queue with a
+    WAITING send (`tx_bcast.send(..).await`, in a spawned task so the caller is not blocked).  A `try_send` drops the chunk when the
+    bounded queue is full — the acknowledged transaction is then announced with holes."""
+    file = u["file"]
+    src, msk, o, c = _fn_body(file, u["fn"])
+    body = msk[o:c]
+    obligations = ["local-changesets-are-queued-with-a-waiting-send"]
+    failures = []
+    m = re.search(r"BroadcastInput\s*::\s*AddBroadcast", body)
+    if not m:
+        raise LostAnchor("broadcast_changes: BroadcastInput::AddBroadcast not found")
+    pre = body[max(0, m.start() - 200):m.start()]
+    if re.search(r"\btry_send\s*\(\s*$", pre) or re.search(r"\.\s*try_send\s*\(", pre.split(";")[-1]):
+        failures.append((obligations[0], _line(src, o + m.start()), "the changeset is handed over with try_send: it is dropped when the broadcast queue is full"))
+    elif not re.search(r"\.\s*send\s*\(\s*$", pre.rstrip() + "") and not re.search(r"\.\s*send\s*\(", pre.split(";")[-1]):
+        raise Unsupported("broadcast_changes: how the changeset is handed to the queue was not recognised")
+    else:
+        # the send must be awaited
+        so = o + m.start()
+        k = msk.rfind("(", o, so)
+        e = match_delim(msk, k)
+        if not re.match(r"\s*\.\s*await\b", msk[e + 1:e + 40]):
+            failures.append((obligations[0], _line(src, so), "the send future is not awaited"))
+    return obligations, failures, ["%s:%d tx_bcast.send(AddBroadcast(..)).await" % (file, _line(src, o + m.start()))]
+
+
+CHECKS = {"broadcast_delivery": check_broadcast_delivery, "updates_row_binding": check_updates_row_binding, "row_bindings": check_row_bindings, "feeds_fed": check_feeds_fed, "exists_binding": check_exists_binding, "seqmerge_params": check_seqmerge_params, "chunker_ranges": check_chunker_ranges, "persist_before_publish": check_persist_before_publish, "schema_reload": check_schema_reload, "cluster_id_fresh": check_cluster_id_fresh, "schema_ddl": check_schema_ddl, "schema_atomic": check_schema_atomic, "seq_range_guard": check_seq_range_guard, "exits_covered": check_exits_covered, "sub_lag_stops": check_sub_lag_stops, "single_snapshot": check_single_snapshot, "offer_loops": check_offer_loops, "speedy_prealloc": check_speedy_prealloc, "from_conn": check_from_conn, "sql_actor_scoping": check_sql_actor_scoping, "local_write_sequence": check_local_write_sequence, "insert_local_changes": check_insert_local_changes, "authz_layer": check_authz_layer, "readonly_guard": check_readonly_guard, "read_pool": check_read_pool}
 
 
 def run_unit(prop, u, tier, ctx, here):
